@@ -9,6 +9,7 @@ import calcgen as cg
 import c01
 import c20
 import c04norm
+import c04typed
 
 TRUSTED = c01.TRUSTED + ["map-iteration order and process independence are sampled by repetition (runtime behaviour the model cannot exhibit)"]
 
@@ -43,6 +44,16 @@ def run_env(lines, gomaxprocs):
     return p.stdout.splitlines()
 
 
+def _ph(c, n):
+    import time
+    now = time.time()
+    ph = c.cov.setdefault("phase_seconds", {})
+    last = getattr(c, "_ph_last", None)
+    if last:
+        ph[last[0]] = round(now - last[1], 1)
+    c._ph_last = ("phase-%d" % n, now)
+
+
 def run(c):
     quick = c.tier == "quick"
     if not std_builds(c):
@@ -54,8 +65,10 @@ def run(c):
         c.report("extraction/oracle build failed: " + out[-800:], {"machinery": "oracle"}, no_input=True)
         return
     shown = 0
+    _ph(c, 1)
     # ---- non-numeric half: normalisers, scenario notes, map order, leaf codecs (model correspondence + direct judgement) ----
     c04norm.run_all(c, quick)
+    _ph(c, 2)
     # ---- every example ----
     exs = examples()
     if len(exs) < 50:
@@ -67,11 +80,15 @@ def run(c):
         if v and isinstance(v[0], list) and v[0] and v[0][0] == b"diff":
             c.report("example %s: repeating serialise/parse/calculate changes the document at %s (round %s)" % (path, v[0][2].decode(), v[0][1]),
                      {"example": path, "result": r, "clause": "calculate -> serialise -> parse -> calculate yields byte-identical JSON"})
+    _ph(c, 3)
     # ---- rich synthetic documents: every member of every registered type populated (harness/c14rich.go), as generated
     # and with "dirty" texts (padding, mixed case, stray punctuation) so that the normalisers of rarely used members
     # (telephones, e-mails, identities, addresses, inboxes, registration ...) have something to do
     rich = os.path.join(WORK, "c14rich")
     subprocess.run([os.path.join(BIN, "vharness"), "c14rich", rich], stdout=subprocess.PIPE, stderr=subprocess.PIPE, env=GOENV)
+    _ph(c, 4)
+    # ---- serialisation half: encoding/json on the repository's types against the typed-marshalling model ----
+    c04typed.run_all(c, quick, rich)
     import glob as _glob
     rl, rn = [], []
     for f in sorted(_glob.glob(os.path.join(rich, "rich-*.json"))):
@@ -90,6 +107,7 @@ def run(c):
             c.report("rich document %s (text variant %s): repeating serialise/parse/calculate changes it at %s (round %s)" % (name, mode, v[0][2].decode(), v[0][1]),
                      {"rich_document": name, "variant": mode, "result": r, "rerun": "bin/vharness c14rich work/c14rich",
                       "clause": "calculate -> serialise -> parse -> calculate yields byte-identical JSON (normalisers are idempotent)"})
+    _ph(c, 5)
     # ---- noisy leaves: every string position of the four main rich documents (made valid) given, one at a time, texts that
     # normalisers take apart in stages: what a pass leaves behind must not be something the next pass rewrites again
     import richvalid
@@ -145,6 +163,7 @@ def run(c):
             c.report("%s with %r at %s: repeating serialise/parse/calculate changes the document at %s (round %s)" % (bn, nv, pth, v[0][2].decode(), v[0][1]),
                      {"rich_document": bn, "path": pth, "value": nv, "result": r,
                       "clause": "calculate -> serialise -> parse -> calculate yields byte-identical JSON (normalisers settle in one pass)"}, finding_id=fid)
+    _ph(c, 6)
     # ---- defaults: every example input and rich document with ONE optional member removed (top level and one level below):
     # whatever calculation fills in for the missing member must already be there after the first calculation
     dl, dn = [], []
@@ -194,6 +213,7 @@ def run(c):
         if v and isinstance(v[0], list) and v[0] and v[0][0] == b"changed":
             c.report("validate/digest/verify/extract changed envelope %s at %s" % (path, v[0][1].decode()),
                      {"example": path, "clause": "validating, digesting, verifying or extracting never changes an envelope"})
+    _ph(c, 7)
     # ---- generated invoices and payments ----
     g = cg.Gen(c.rng)
     g.calc_only = True      # combos that calculate but would not validate (rate key under a country without regime)
@@ -222,6 +242,7 @@ def run(c):
                 c.report("recalculating a calculated document changes it (%s)" % where,
                          {"document": d, "result": f, "first": r0["go_raw"], "second": r1["go_raw"],
                           "clause": "serialising the result, parsing it back and calculating again yields byte-identical JSON"}, finding_id=fid)
+    _ph(c, 8)
     # ---- normalisers: codes and series with runs of separators / symbols must settle in one calculation ----
     junk = []
     alphabet = ["A", "b", "1", "7", " ", " ", "-", ".", "/", "#", "_", ":", "$", "  ", " - ", "\t"]
@@ -257,6 +278,7 @@ def run(c):
             shown += 1
             c.report("recalculating a payment changes it at %s" % v[0][2].decode(), {"payment": p, "result": f,
                      "clause": "serialising the result, parsing it back and calculating again yields byte-identical JSON"})
+    _ph(c, 9)
     # ---- history independence: the same workloads (examples, synthetic invoices per regime / addon / rate key incl. the
     # legacy spellings found in the regimes' own files) calculated in a seeded order and in the reverse order, each in a
     # fresh process: a document's calculated JSON must not depend on what the process calculated before it
@@ -274,6 +296,7 @@ def run(c):
                 c.report("the calculated result of %s depends on which documents the process calculated before it (%s / %s)" % (k_, eq["fwd"][k_], eq["rev"].get(k_)),
                          {"workload": k_, "clause": "byte-identical JSON regardless of process, repetition or map iteration order",
                           "rerun": "for m in fwd rev; do bin/vharness c15equiv %s %d 40 $m | grep -F '%s'; done" % (REPO, c.seed, k_)})
+    _ph(c, 10)
     # ---- process / GOMAXPROCS independence (sampling) ----
     sample = [d for _, d in exs if True][: (60 if quick else 10 ** 6)] + [json.dumps(d).encode() for d in docs[: (200 if quick else 5000)]]
     lines = ["c04 build " + w(d) for d in sample]
